@@ -59,12 +59,14 @@ type pgSchema struct {
 	Enums []*pgEnum
 	Root  string
 	Opts  pgOpts // the (defaulted) options the schema was generated with; MaxDepth is used by genProtoValue
+	Chain *pgField // Opts.SelfChain: the field of the root message whose type is the root message itself
 }
 
 type pgOpts struct {
 	MaxMsgs, MaxFields, MaxDepth int
 	BigNumbers                   bool // allow field number 2^20 (at most once per schema)
 	StringKeyPct                 int  // > 0: that share of the maps is string-keyed (0: uniform over the 12 key kinds, no extra draw)
+	SelfChain                    bool // the root message gets one more field of its own type (singular, repeated or map valued): values of any depth
 }
 
 const (
@@ -359,6 +361,18 @@ func genProtoSchema(r *rng, o pgOpts) *pgSchema {
 		}
 		f.Kind, f.MsgName, f.EnumName = pgKMessage, u.Name, ""
 		mark(u.Name)
+	}
+
+	// a directly recursive field of the root message (label drawn as for any field; map keys of a kind the generic
+	// readers support), so that values of arbitrary nesting depth exist for this schema
+	if o.SelfChain {
+		root := s.msg(s.Root)
+		f := newField(root)
+		f.Kind, f.MsgName, f.EnumName = pgKMessage, root.Name, ""
+		if f.Label == pgMap {
+			f.KeyKind = []int{5, 3, 13, 4, 17, 18, pgKString}[r.intn(7)]
+		}
+		s.Chain = f
 	}
 
 	// declaration order: ascending, descending or as drawn (random)
